@@ -487,6 +487,10 @@ def rule_ok_means_attempted(ctx, crate, rule="R-IO-OK-MEANS-ATTEMPTED"):
             for sb, t in b.switches():
                 if not any(b.edge_dominates((sb, x), i) for x in b.succ(sb)):
                     continue
+                # the test *decides* about this Ok only if one of its outcomes avoids it (the exit test of a loop that comes
+                # first does not: the other edge leads back to the test)
+                if all(i in b.reach([y]) for y in b.succ(sb)):
+                    continue
                 # what the test reads itself: results of calls are taken as they are (the draw target's verdict is the verdict,
                 # whatever force flag it was asked with)
                 sl = b.slice_switch(sb, stop_at_calls=REFUSALS)
